@@ -172,8 +172,36 @@ def gen_num_expr(c: Ctx, vars_, depth: int, in_binop: bool = False):
     if hit(cfg.p_bin):
         if c.p(cfg.p_intdiv):
             # integer literal quotient / exponent shapes
-            k = c.i(0, 5)
+            k = c.i(0, 7)
             q = ["bin", "/", gen_posint(c), gen_posint(c)]
+            if k == 6:
+                # an integer valued conditional as the DIVISOR: its values are non-zero integers written as
+                # (signed) literals or as integer arithmetic (`-2`, `2*3`, `1 + 2`), never doubles in C by themselves
+                def nz(c):
+                    j = c.i(0, 4)
+                    v = ["num", c.pick(["1", "2", "3", "4", "10"])]
+                    if j == 0:
+                        return ["bin", "*", v, ["num", c.pick(["2", "3"])]]
+                    if j == 1:
+                        return ["bin", "+", v, ["num", c.pick(["1", "2"])]]
+                    return ["neg", v] if j in (2, 3) else v
+                ic = ["cond", gen_bool_expr(c, vars_, 1), nz(c), nz(c)]
+                if c.p(0.25):
+                    ic = ["cond", gen_rel(c, vars_, 1), nz(c), ic]
+                num = gen_posint(c) if c.p(0.6) else gen_int_cond(c, vars_, 2)
+                return ["bin", "/", num, ic]
+            if k == 7:
+                # integer literals / products of integer literals beyond the range of a C int
+                big = c.pick([
+                    ["bin", "*", ["num", "100000"], ["num", "100000"]],
+                    ["bin", "*", ["num", "65536"], ["num", "32768"]],
+                    ["num", "3000000000"],
+                    ["num", "10000000000000000000000"],
+                    ["bin", "+", ["num", "2147483647"], ["num", "1"]],
+                    ["bin", "*", ["bin", "*", ["num", "2000"], ["num", "2000"]], ["num", "2000"]],
+                ])
+                sub = gen_num_expr(c, vars_, depth - 1)
+                return c.pick([["bin", "*", big, sub], ["bin", "/", sub, big], ["bin", "+", ["bin", "/", sub, big], ["num", "1"]]])
             if k >= 4:
                 # an integer valued conditional / relational sharing a quotient with integer literals
                 ic = gen_int_cond(c, vars_, 2)
